@@ -66,10 +66,6 @@ def _demean(x):
     return x - x.mean()
 
 
-def _span(x):
-    return x.max() - x.min()
-
-
 TRANSFORMS = {"sum": "sum", "mean": "mean", "max": "max", "min": "min", "count": "count", "demean": _demean}
 
 # ---------------------------------------------------------------------------
@@ -499,7 +495,6 @@ def _opname(op):
 FAMILY = {"idxmin": "idxmin-idxmax", "idxmax": "idxmin-idxmax", "first": "first-last", "last": "first-last",
           "ffill": "ffill-bfill", "bfill": "ffill-bfill", "cumsum": "cum", "cumprod": "cum", "cumcount": "cum",
           "cov": "cov-corr", "corr": "cov-corr", "mean": "mean-var-std", "var": "mean-var-std", "std": "mean-var-std"}
-PLAIN_AGG = ("sum", "prod", "min", "max", "count", "size", "first", "last")
 
 
 def _family(name):
@@ -865,6 +860,10 @@ class _Judge:
             return "split_every&series-or-index-key"
         if self.fam in ("transform", "shift", "ffill-bfill") and f["cat-key"] and f["observed"] is False:
             return "cat-key&observed=False"
+        if self.fam == "value_counts" and f["neg-zero-key"]:
+            return "key-has-0.0-and-negative-0.0"
+        if self.fam == "value_counts" and f["na-keys"] and f["dropna"] is False:
+            return "na-keys&dropna=False"
         return "other"
 
     def _pred_dtype(self, r, e):
@@ -899,6 +898,8 @@ class _Judge:
             return "key-has-0.0-and-negative-0.0&shuffle"
         if fam == "transform" and f["na-keys"] and f["dropna"] is False and f["shuffle-plan"]:
             return "na-keys&dropna=False&shuffle"
+        if fam == "value_counts" and f["neg-zero-key"]:
+            return "key-has-0.0-and-negative-0.0"
         if fam == "value_counts" and f["na-keys"] and f["dropna"] is False:
             return "na-keys&dropna=False"
         if fam == "cum":
@@ -910,6 +911,8 @@ class _Judge:
         if fam == "shift":
             if f["shuffle-plan"] and not f["index-increasing-unique"]:
                 return "after-shuffle&index-not-strictly-increasing"
+            if f["shuffle-plan"] and f["neg-zero-key"]:
+                return "key-has-0.0-and-negative-0.0&shuffle"
             return "other"
         if fam == "cov-corr":
             if f["values-have-NA"]:
@@ -981,13 +984,14 @@ def _exc_prefix(case, name, feats, exc):
             and f["multi-key"] and f["dropna"] is False:
         pred = "multi-key&dropna=False"
     elif fam == "value_counts" and fn == "_value_counts_aggregate" and isinstance(exc, AttributeError) \
-            and (not len_pdf or f["empty-partition"]):
-        pred = "empty-partition"
+            and f.get("partition-without-non-NA-key"):
+        pred = "partition-without-non-NA-key"
     elif fam == "value_counts" and fn == "_groupby_aggregate" and "multiple levels" in msg and f["multi-key"] \
-            and (not len_pdf or f["empty-partition"]):
-        pred = "multi-key&empty-partition"
-    elif fam == "value_counts" and isinstance(exc, KeyError) and fn == "operation" and f["empty-partition"] and f["split_out>1"]:
-        pred = "empty-partition&split_out>1"
+            and f.get("partition-without-non-NA-key"):
+        pred = "multi-key&partition-without-non-NA-key"
+    elif fam == "value_counts" and isinstance(exc, KeyError) and fn == "operation" and f.get("partition-without-non-NA-key") \
+            and f["split_out>1"]:
+        pred = "partition-without-non-NA-key&split_out>1"
     elif fam == "ffill-bfill" and f["nullable-int-key"] and f["dropna"] is False and "NA is ambiguous" in msg:
         pred = "nullable-int-key&dropna=False"
     elif fam in ("ffill-bfill", "transform") and f["na-keys"] and f["dropna"] is not False and fn == "_groupby_slice_transform" \
@@ -1054,6 +1058,13 @@ def run_case(case, ctx):
         return
     except Exception as ex:  # noqa: BLE001
         feats = _features(case, pdf, ddf, plan)
+        if name == "value_counts":
+            # _value_counts returns an index-less empty Series for a partition that is empty or holds NA keys only
+            try:
+                feats["partition-without-non-NA-key"] = not len(pdf) or any(
+                    not {k for k in ks if "<NA>" not in k} for ks in _partition_key_sets(ddf, case))
+            except Exception:  # noqa: BLE001
+                feats["partition-without-non-NA-key"] = None
         ctx.exception(ex, prefix=_exc_prefix(case, name, feats, ex), case_features=feats, by=case["by"],
                       gkw=case["gkw"], akw=case["akw"], op=op)
         return
@@ -1102,20 +1113,49 @@ def _part_lengths(case, n, ddf):
 
 
 RULE = ("cases = (frame seed/rows/index kind, partitioning incl. empty partitions and unknown divisions, grouping keys "
-        "[column(s), index name, index object, derived Series, NA keys, categorical], sort/dropna/observed, operation, "
-        "split_out/shuffle_method/split_every); first a complete product function x split_out x shuffle_method x sort on "
-        "one fixed frame, then seeded random cases; non-trivial = >=2 rows, >=2 result rows, >=2 partitions; distinct = "
-        "distinct (program, frame seed, partitioning)")
+        "[column(s), index name, derived Series, NA keys, categorical], sort/dropna/observed, operation, "
+        "split_out/shuffle_method/split_every). Complete sub-spaces first: (A) one fixed 24-row frame in 5 row slices with "
+        "an empty one, keys 'a' and 'n'(dropna=False): 18 operations x split_out{None,1,2,3,True} x shuffle_method{None,"
+        "tasks,disk} x sort{None,True,False}; (B) edge grid: 41 operation forms x 12 key kinds x {24-row frame with empty "
+        "first and middle partition, empty frame} x {no keywords, split_out=2+tasks[, split_every=8 for median]}; then "
+        "seeded random cases (frames.rand_frame(cols='wide') + many-groups key 'g', 0..60 rows, all index kinds, random "
+        "partition descriptions). non-trivial = >=2 rows, >=2 result rows, >=2 partitions; distinct = distinct (program, "
+        "frame seed, rows, partitioning)")
 ASSUMPTIONS = [
     "pandas 3.0.5 on the concatenated frame is the reference; its refusal (exception) removes the case",
     "dask.dataframe is imported through the pyarrow import stub (pandas-backed strings, convert-string=False)",
-    "scheduler='sync'; the distributed/p2p shuffle is not reachable in this environment",
+    "scheduler='sync'; shuffle_method None resolves to the disk shuffle here; the distributed/p2p shuffle is not reachable",
+    "transform/shift get meta= derived from the pandas result (name, dtype / empty frame), as a user would pass it",
 ]
-BUDGET = {"quick": 45, "thorough": 600}
-FLOORS = {"quick": {"evaluations": 10, "distinct_nontrivial": 5}, "thorough": {"evaluations": 10, "distinct_nontrivial": 5}}
-EXHAUSTIVE_SPACE = None
-CASE_TIMEOUT = 90
-CLAIM = "draft"
-LEVEL_NOTE = "trusts pandas as the reference and the shared comparison discipline of vf.gen.frames"
-TECHNIQUE = "runtime monitoring: differential oracle against pandas on every computed groupby result"
-PENDING = {}
+BUDGET = {"quick": 75, "thorough": 900}
+FLOORS = {
+    "quick": {"evaluations": 2600, "distinct_nontrivial": 1800, "max_skipped_fraction": 0.3,
+              "counters": {"compared": 2400, "cmp_ordered": 280, "cmp_keyed_multiset": 2100, "plan_shuffle": 1100,
+                           "plan_no_shuffle": 1200, "order_dependent_main": 330, "order_dependent_after_shuffle": 320,
+                           "na_key_cases": 700, "categorical_key_cases": 250, "empty_partition_cases": 1500},
+              "sets": {"programs": 2000, "plans": 120}},
+    "thorough": {"evaluations": 28000, "distinct_nontrivial": 20000, "max_skipped_fraction": 0.3,
+                 "counters": {"compared": 26000, "cmp_ordered": 3000, "cmp_keyed_multiset": 22000, "plan_shuffle": 12000,
+                              "plan_no_shuffle": 13000, "order_dependent_main": 3500, "order_dependent_after_shuffle": 3500,
+                              "na_key_cases": 8000, "categorical_key_cases": 3000, "empty_partition_cases": 9000},
+                 "sets": {"programs": 20000, "plans": 300}},
+}
+EXHAUSTIVE_SPACE = {
+    "quick": "(A) 18 operations x split_out{None,1,2,3,True} x shuffle_method{None,tasks,disk} x sort{None,True,False} on one "
+             "fixed frame for keys 'a' and 'n'(dropna=False) [1620 programs]; (B) edge grid 41 operation forms x 12 key kinds x "
+             "{frame with empty partitions, empty frame} x {plain, split_out=2+tasks[, split_every=8]} [~1900 programs]",
+    "thorough": "as quick, (A) additionally for keys ['a','b'], 'k'(observed=False), 'n', Series a%2 [4860 programs]",
+}
+CASE_TIMEOUT = 120
+CLAIM = ("Every groupby program of the generated stream (two complete finite products of operation x key kind x setting "
+         "on fixed frames, then seeded random frames/partitionings/keys/settings) was executed through the real "
+         "dask.dataframe API and its computed result compared with pandas on the concatenated frame: object kind, "
+         "columns and their order, names, dtypes, group keys incl. NA / unobserved-category groups, values (rtol 1e-7 "
+         "for floating reductions), and row order where both sides promise it. 'Held' means no difference outside the "
+         "known findings among the executions observed; differences are reported under narrow mechanism labels and "
+         "every normalisable deviation (column order, names, NA group, dtype) is repaired before the comparison "
+         "continues, so that a second defect in the same result is still seen.")
+LEVEL_NOTE = ("trusts pandas as the reference, the shared comparison discipline of vf.gen.frames, and the harness' own "
+              "key-sorting normal form for keyed-multiset comparison")
+TECHNIQUE = ("runtime monitoring: differential oracle against pandas on every computed groupby result (staged comparison with "
+             "explain-and-repair), lowered-plan observation for the after-shuffle facet, complete setting products + random")
